@@ -16,6 +16,7 @@ All arithmetic is over mathematical integers; callers clip to type ranges (wrap-
 
 NEG_INF = None
 TOP = ("top",)
+MAX_PARAM = 0        # set per analysed body: locals 1..MAX_PARAM are parameters
 KILL_LOG = None      # when a set: every place whose contents are forgotten is recorded (used for liftability)
 
 
@@ -173,7 +174,7 @@ def val_places(v):
 
 def cond_places(c):
     k = c[0]
-    if k == "cmp":
+    if k in ("cmp", "cmpw"):
         for x in (c[2], c[3]):
             for p in val_places(x):
                 yield p
@@ -203,13 +204,14 @@ def cond_places(c):
 
 
 class State:
-    __slots__ = ("iv", "rel", "sym", "bottom")
+    __slots__ = ("iv", "rel", "sym", "bottom", "dirty")
 
     def __init__(self):
         self.iv = {}
         self.rel = {}
         self.sym = {}
         self.bottom = False
+        self.dirty = frozenset()     # places (rooted at parameters) written since function entry
 
     def copy(self):
         s = State.__new__(State)
@@ -217,7 +219,12 @@ class State:
         s.rel = dict(self.rel)
         s.sym = dict(self.sym)
         s.bottom = self.bottom
+        s.dirty = self.dirty
         return s
+
+    def mark_dirty(self, entry):
+        if isinstance(entry[0], int) and entry[0] <= MAX_PARAM and entry not in self.dirty:
+            self.dirty = self.dirty | {entry}
 
     # ---- numeric queries -------------------------------------------------
     def term_iv(self, t):
@@ -364,8 +371,8 @@ class State:
         """forget facts about the contents of `place` (and everything below / above it).
         whole_local: the root local itself is reassigned -> pointers rooted there die too.
         keep_len: element writes through the place keep its length term."""
-        if KILL_LOG is not None and not keep_len:
-            KILL_LOG.add(place)
+        if not keep_len:
+            self.mark_dirty(place)
         dead_terms = [t for t in self.iv if overlaps(term_place(t), place) and not (keep_len and t[0] == "len" and term_place(t) == place)]
         for t in dead_terms:
             del self.iv[t]
@@ -397,8 +404,7 @@ class State:
     def kill_under(self, prefix, names=None):
         """forget facts about places strictly below/at `prefix`; with `names`, only those whose path below the
         prefix mentions one of the field names (callee mod summary)"""
-        if KILL_LOG is not None:
-            KILL_LOG.add((prefix[0], prefix[1], tuple(sorted(names))) if names is not None else prefix)
+        self.mark_dirty((prefix[0], prefix[1], tuple(sorted(names))) if names is not None else prefix)
         def hit1(pl):
             if not under(pl, prefix):
                 return False
@@ -477,6 +483,7 @@ class State:
         if other.bottom:
             return self.copy()
         s = State()
+        s.dirty = self.dirty | other.dirty
         # sym: keep equal entries; numeric aliases that differ are turned into intervals
         for p, v in self.sym.items():
             w = other.sym.get(p)
@@ -568,6 +575,7 @@ class State:
         if self.bottom:
             return new.copy()
         s = State()
+        s.dirty = self.dirty | new.dirty
         s.sym = {p: v for p, v in new.sym.items() if self.sym.get(p) == v}
         for t, b in new.iv.items():
             a = self.iv.get(t)
@@ -599,6 +607,8 @@ class State:
         if self.bottom:
             return True
         if other.bottom:
+            return False
+        if not (self.dirty <= other.dirty):
             return False
         for p, v in other.sym.items():
             if self.sym.get(p) != v:
